@@ -85,7 +85,7 @@ def gen_discrete(ctx):
         for cmd in ("lb", "ub", "lbl", "fs"):
             L.append("%s 2 %s %d %d" % (cmd, elts([a for a, _ in pairs], [b for _, b in pairs]), v[0], v[1]))
     # random longer arrays
-    nrand = 60 if not thorough else 400
+    nrand = 60 if not thorough else 200
     for i in range(nrand):
         n = r.choice([9, 10, 15, 16, 17, 31, 32, 33, 63, 64, 65, 100, 127, 128, 129, 200, 255, 256, 257])
         if i % 10 == 0:
@@ -155,7 +155,7 @@ def gen_discrete(ctx):
             L.append("ipowz %d %d" % (n, r.randrange(4, 11)))
     # implementation-only (too long for the list-based model): vs std::
     B = []
-    for i in range(20 if not thorough else 200):
+    for i in range(20 if not thorough else 80):
         n = r.randrange(2000, 10001)
         span = r.choice([3, 100, 10 ** 9])
         ks = [r.randrange(-span, span) for _ in range(n)]
@@ -259,11 +259,13 @@ def run_discrete(ctx, algos_exe, model_exe):
     mlines = mout.splitlines()
     if rc != 0 or len(mlines) != len(L):
         raise RuntimeError("extracted model failed rc=%d (%d lines for %d commands): %s" % (rc, len(mlines), len(L), mout[-500:]))
-    nviol = 0
+    nviol = {}
     for i, line in enumerate(L + B):
         impl_s, _, ref_s = ilines[i].partition("|")
         impl, ref = impl_s.split(), ref_s.split()
         cmd = line.split(None, 1)[0]
+        if nviol.get(cmd, 0) >= 2:
+            continue
         ctx.count("cmd:" + cmd)
         nontriv = len(line) > 12
         ctx.case(line if len(line) < 200 else (cmd, hash(line)), nontrivial=nontriv)
@@ -271,17 +273,15 @@ def run_discrete(ctx, algos_exe, model_exe):
             ctx.sample({"command": line[:120], "impl": ilines[i][:120], "model": mlines[i][:120] if i < len(L) else None})
         msg = discrete_oracle(line, impl, ref)
         if msg:
-            nviol += 1
+            nviol[cmd] = nviol.get(cmd, 0) + 1
             ctx.violation("oracle", msg, {"command": line[:4000], "implementation": ilines[i][:4000],
                                            "model": mlines[i][:4000] if i < len(L) else None})
         elif i < len(L) and mlines[i].split() != impl:
-            nviol += 1
+            nviol[cmd] = nviol.get(cmd, 0) + 1
             ctx.violation("correspondence", "model and implementation differ for '%s' (the std:: oracle accepts the implementation)" % cmd,
                           {"command": line[:4000], "implementation": ilines[i][:4000], "model": mlines[i][:4000],
                            "theorem": "Properties_C18.v is about a model that no longer matches the code"},
                           no_input=True)
-        if nviol > 8:
-            break
     return len(L), len(B)
 
 
@@ -309,7 +309,7 @@ def gen_grids(ctx):
     # corpus: the replay of finding F3 (UniformGrid::find one ulp below back())
     cases.append(("ufind", (0.0, 1.0, 4, math.nextafter(1.0, 0.0))))
     cases.append(("finterpu", (0.0, 1.0, 4, math.nextafter(1.0, 0.0))))
-    ngrids = 30 if not thorough else 600
+    ngrids = 24 if not thorough else 200
     for gi in range(ngrids):
         kind = r.randrange(4)
         if kind == 0:      # log-energy grids like the physics tables
@@ -337,8 +337,8 @@ def gen_grids(ctx):
                 cases.append(("ufind", (front, back, size, v)))
                 if r.random() < 0.35:
                     cases.append(("finterpu", (front, back, size, v)))
-    for gi in range(30 if not thorough else 400):
-        n = r.choice([2, 3, 4, 5, 8, 16, 17, 40])
+    for gi in range(24 if not thorough else 150):
+        n = r.choice([2, 3, 4, 5, 8, 16, 17, 40 if thorough else 24])
         kind = r.randrange(3)
         if kind == 0:
             g = sorted(set(r.uniform(-100, 100) for _ in range(n)))
@@ -360,14 +360,14 @@ def gen_grids(ctx):
             if g[0] <= v < g[-1]:
                 cases.append(("nfind", (g, v)))
                 cases.append(("finterpn", (g, v)))
-    for _ in range(150 if not thorough else 3000):
+    for _ in range(150 if not thorough else 1000):
         xl = r.choice([0.0, 1.0, r.uniform(-10, 10), 10 ** r.uniform(-6, 6)])
         xr = xl + 10 ** r.uniform(-6, 6)
         yl = r.choice([0.0, 1.0, r.uniform(-10, 10), 10 ** r.uniform(-6, 6)])
         yr = r.choice([0.0, yl, r.uniform(-10, 10), 10 ** r.uniform(-6, 6)])
         x = r.choice([xl, xr, math.nextafter(xl, xr), math.nextafter(xr, xl), r.uniform(xl, xr)])
         cases.append(("interp", (xl, yl, xr, yr, x)))
-    for _ in range(12 if not thorough else 150):
+    for _ in range(12 if not thorough else 60):
         nx, ny = r.randrange(2, 6), r.randrange(2, 6)
         xs = sorted(set(r.uniform(-10, 10) for _ in range(nx)))
         ys = sorted(set(10 ** r.uniform(-3, 3) for _ in range(ny)))
@@ -482,9 +482,11 @@ def run_grids(ctx, grids_exe):
     if rc != 0 or len(lines) != len(cases):
         raise vlib.BuildError("grids harness failed rc=%d" % rc, out[-1500:])
     mvals = batched_eval(ctx, "grids", PRE, [(k, grid_expr(k, p)) for k, p in cases])
-    nviol = 0
+    nviol = {}
     for (k, p), line, mv in zip(cases, lines, mvals):
         tok = line.split()
+        if nviol.get(k, 0) >= 2:
+            continue
         ctx.count("grid:" + k)
         ctx.case((k, repr(p)[:300]), nontrivial=True)
         if ctx.evaluations % 701 == 0:
@@ -494,7 +496,7 @@ def run_grids(ctx, grids_exe):
             ctx.count("knife-edge-bin-accepted")
             msg = None
         if msg:
-            nviol += 1
+            nviol[k] = nviol.get(k, 0) + 1
             ctx.violation("oracle", msg, {"kind": k, "input": [hx(x) if isinstance(x, float) else x for x in flatten(p)],
                                            "implementation": line, "model": repr(mv)})
         else:
@@ -511,18 +513,16 @@ def run_grids(ctx, grids_exe):
             else:
                 agree = close(mv, pf(tok[0]), rtol=1e-9, atol=1e-13 * max(map(abs, p[2])))
             if not agree:
-                nviol += 1
+                nviol[k] = nviol.get(k, 0) + 1
                 ctx.violation("correspondence", "grid model and implementation differ for %s" % k,
                               {"kind": k, "input": [hx(x) if isinstance(x, float) else x for x in flatten(p)],
                                "implementation": line, "model": repr(mv),
                                "theorem": "Properties_C18.v is about a model that no longer matches the code"},
                               no_input=True)
-        if nviol > 8:
-            break
     return len(cases)
 
 
-def batched_eval(ctx, name, pre, kexprs, batch=80, files=8):
+def batched_eval(ctx, name, pre, kexprs, batch=80, files=4):
     """Evaluate many expressions with few vm_compute commands: expressions of
     the same kind (hence the same type) are grouped into list literals."""
     order = {}
